@@ -47,17 +47,37 @@ type Deflater struct {
 	Level             int // 0 = flate.BestCompression (BestSpeed never references history for inputs under 128 bytes)
 	w                 *flate.Writer
 	buf               bytes.Buffer
+	hist              []byte // last 32 KiB of plaintext sent (context takeover only)
+}
+
+func (d *Deflater) level() int {
+	if d.Level == 0 {
+		return flate.BestCompression
+	}
+	return d.Level
 }
 
 func (d *Deflater) writer() *flate.Writer {
 	if d.w == nil || d.NoContextTakeover {
-		lvl := d.Level
-		if lvl == 0 {
-			lvl = flate.BestCompression
+		if !d.NoContextTakeover && len(d.hist) > 0 {
+			// the stream was ended by a final block: continue with a new stream
+			// whose window is primed with the plaintext sent so far
+			d.w, _ = flate.NewWriterDict(&d.buf, d.level(), d.hist)
+		} else {
+			d.w, _ = flate.NewWriter(&d.buf, d.level())
 		}
-		d.w, _ = flate.NewWriter(&d.buf, lvl)
 	}
 	return d.w
+}
+
+func (d *Deflater) remember(msg []byte) {
+	if d.NoContextTakeover {
+		return
+	}
+	d.hist = append(d.hist, msg...)
+	if len(d.hist) > window {
+		d.hist = append([]byte(nil), d.hist[len(d.hist)-window:]...)
+	}
 }
 
 // Message compresses one message the usual way (sync flush, tail removed).
@@ -66,6 +86,7 @@ func (d *Deflater) Message(msg []byte) []byte {
 	w := d.writer()
 	w.Write(msg)
 	w.Flush()
+	d.remember(msg)
 	out := d.buf.Bytes()
 	if len(out) >= 4 && bytes.Equal(out[len(out)-4:], []byte{0, 0, 0xff, 0xff}) {
 		out = out[:len(out)-4]
@@ -74,20 +95,22 @@ func (d *Deflater) Message(msg []byte) []byte {
 }
 
 // MessageBFinal compresses one message ending with a BFINAL=1 block followed by
-// 0x00 (RFC 7692 section 7.2.3.4). The deflate context cannot continue after a
-// final block, so the next message starts a new stream (with the old history
-// gone), which is only legal to mix with context takeover if the receiver
-// resets too; callers use it with NoContextTakeover.
+// 0x00 (RFC 7692 section 7.2.3.4). A DEFLATE stream cannot continue after a
+// final block; under context takeover the LZ77 window does (the message is
+// compressed against the plaintext sent so far and later messages may refer
+// back to it), which a new stream primed with that plaintext reproduces.
 func (d *Deflater) MessageBFinal(msg []byte) []byte {
 	d.buf.Reset()
-	lvl := d.Level
-	if lvl == 0 {
-		lvl = flate.BestCompression
+	var w *flate.Writer
+	if !d.NoContextTakeover && len(d.hist) > 0 {
+		w, _ = flate.NewWriterDict(&d.buf, d.level(), d.hist)
+	} else {
+		w, _ = flate.NewWriter(&d.buf, d.level())
 	}
-	w, _ := flate.NewWriter(&d.buf, lvl)
 	w.Write(msg)
 	w.Close()
 	d.w = nil
+	d.remember(msg)
 	out := append([]byte(nil), d.buf.Bytes()...)
 	return append(out, 0x00)
 }
